@@ -1,9 +1,12 @@
 mod choices;
 mod core;
 mod gen_clvm;
+mod gen_lisp;
 mod gen_value;
 mod known;
 mod orch;
+mod reduce;
+mod refint;
 mod props;
 mod replay;
 mod sut;
@@ -41,6 +44,91 @@ fn main() {
     );
     crate::core::SEED.store(seed, std::sync::atomic::Ordering::Relaxed);
     match args[1].as_str() {
+        "try" => {
+            // vcheck try "<source>" "<args in classic syntax>" [--opt]
+            let src = args.get(2).unwrap_or_else(|| usage());
+            let argtxt = args.get(3).cloned().unwrap_or_else(|| "()".to_string());
+            let opt = args.iter().any(|a| a == "--opt");
+            // --modern SIGIL OPT FE POST : compile_file with an explicit option set
+            let compiled = if let Some(sigil) = arg_after(&args, "--modern") {
+                let bits = arg_after(&args, "--bits").unwrap_or_else(|| "000".into());
+                let b: Vec<bool> = bits.chars().map(|c| c == '1').collect();
+                sut::compile_modern(src, &sigil, sut::ModernOpts { optimize: b[0], frontend_opt: b[1], post_opt: b[2] }, "*verif*.clsp", &[]).map(|c| c.code).map_err(|e| format!("{}: {}", e.0, e.1))
+            } else {
+                sut::compile_lib(src, opt, &[])
+            };
+            match compiled {
+                Err(e) => println!("COMPILE ERROR: {e}"),
+                Ok(code) => {
+                    let mut a = clvmr::Allocator::new();
+                    let n = code.to_node(&mut a);
+                    println!("CODE: {}", chialisp::classic::clvm_tools::binutils::disassemble(&a, n, Some(2)));
+                    let env = chialisp::classic::clvm_tools::binutils::assemble(&mut a, &argtxt).expect("args");
+                    let envv = gen_value::V::from_node(&a, env);
+                    match sut::run_consensus(&code, &envv, 11_000_000_000) {
+                        Ok(v) => {
+                            let n = v.to_node(&mut a);
+                            println!("RESULT: {}", chialisp::classic::clvm_tools::binutils::disassemble(&a, n, Some(2)));
+                        }
+                        Err(e) => println!("RUN ERROR: {e}"),
+                    }
+                }
+            }
+        }
+        "reduce-hang" => {
+            // vcheck reduce-hang C01 --hexfile F --dialect cl23 : AST-level reduction of a generated
+            // program whose compilation under --dialect does not finish (subprocess + timeout)
+            let hexs = arg_after(&args, "--hexfile").and_then(|p| std::fs::read_to_string(p).ok()).expect("--hexfile");
+            let b = hex::decode(hexs.trim()).expect("hex");
+            let d = gen_lisp::Dialect::parse(&arg_after(&args, "--dialect").unwrap_or_else(|| "cl23".into())).expect("dialect");
+            let okd = gen_lisp::Dialect::parse(&arg_after(&args, "--ok-dialect").unwrap_or_else(|| "cl21".into())).expect("ok dialect");
+            let case = props::c01::decode_case(&b, tier, None);
+            let exe = std::env::current_exe().unwrap();
+            let run = |text: &str, limit: u64| -> (Option<i32>, bool, String) {
+                use std::process::{Command, Stdio};
+                let mut child = Command::new("bash")
+                    .arg("-c")
+                    .arg(format!("ulimit -s 8192; exec timeout {limit} {} try \"$SRC\" '()'", exe.display()))
+                    .env("SRC", text)
+                    .stdout(Stdio::piped())
+                    .stderr(Stdio::null())
+                    .spawn()
+                    .unwrap();
+                let mut out = String::new();
+                use std::io::Read;
+                child.stdout.take().unwrap().read_to_string(&mut out).ok();
+                let st = child.wait().unwrap();
+                (st.code(), st.code().is_none(), out)
+            };
+            let mut still = |p: &gen_lisp::Program| -> bool {
+                let ok21 = run(&gen_lisp::render_program(p, Some(okd)), 40);
+                if !ok21.2.contains("CODE:") {
+                    return false;
+                }
+                let r = run(&gen_lisp::render_program(p, Some(d)), 15);
+                let hang = r.0 == Some(124) || r.0 == Some(134) || r.1;
+                eprintln!("candidate size {} hang={hang}", gen_lisp::render_program(p, None).len());
+                hang
+            };
+            assert!(still(&case.prog), "original does not hang");
+            let red = reduce::reduce_program(&case.prog, &mut still, 2000);
+            println!("{}", gen_lisp::render_program(&red, Some(d)));
+        }
+        "show" => {
+            let prop = props::lookup(args.get(2).unwrap_or_else(|| usage())).expect("property");
+            let sec = arg_after(&args, "--sec").unwrap_or_default();
+            let hexs = arg_after(&args, "--hex").or_else(|| arg_after(&args, "--hexfile").and_then(|p| std::fs::read_to_string(p).ok())).unwrap_or_default();
+            let b = hex::decode(hexs.trim()).expect("hex");
+            match prop.describe(&sec, &Input::Bytes(&b), tier) {
+                Some(v) => {
+                    if let Some(src) = v.get("source").and_then(|s| s.as_str()) {
+                        println!("{src}");
+                    }
+                    println!("{}", serde_json::to_string_pretty(&v).unwrap());
+                }
+                None => println!("no description"),
+            }
+        }
         "list" => {
             for p in props::all() {
                 println!("{}", p.id());
